@@ -16,6 +16,8 @@ Query:
 """
 import math
 
+from . import survey as S
+
 MR_STATES = (1, 0, -1)  # payload order of the selection axis: selected, other, missing
 
 
@@ -113,7 +115,8 @@ def cat_dim(var):
             elements.append(e)
         subtype = {"class": fl, "missing_reasons": {"No Data": -1}, "missing_rules": {}}
         if fl == "datetime":
-            subtype["resolution"] = "M"
+            vals = [c["evalue"] for c in var["cats"] if not c["missing"]]
+            subtype["resolution"] = S.datetime_resolution(vals[0]) if vals else "M"
         return {"derived": True, "references": refs,
                 "type": {"class": "enum", "elements": elements, "subtype": subtype}}
     typedef = {"class": "categorical", "ordinal": False, "categories": category_dicts(var)}
